@@ -46,7 +46,7 @@ Supplies == {<<>>} \cup {<<k>> : k \in K} \cup {<<0, 1>>}
 Shapes == {"map", "nil", "err", "errnf", "panic"}
 
 A0 == [op |-> "", k |-> 0, v |-> 0, d |-> 0, dk |-> "", ks |-> <<>>, supply |-> <<>>, m |-> 0,
-       iff |-> "", ifa |-> "", ld |-> "", shape |-> "", dt |-> 0, max2 |-> 0]
+       iff |-> "", ifa |-> "", ld |-> "", shape |-> "", dt |-> 0, max2 |-> 0, adv |-> 0]
 
 KeyOps == {"Set", "SetIfAbsent", "GetIfPresent", "GetEntry", "GetEntryQuietly", "Invalidate"}
 Args ==
@@ -55,9 +55,10 @@ Args ==
     \cup {[A0 EXCEPT !.op = "ComputeIfAbsent", !.k = k, !.v = 2, !.ifa = g] : k \in K, g \in {"write", "cancel", "panic"}}
     \cup {[A0 EXCEPT !.op = "ComputeIfPresent", !.k = k, !.v = 2, !.iff = f] : k \in K, f \in Hows}
     \cup {[A0 EXCEPT !.op = o, !.k = k, !.d = d] : o \in {"SetExpiresAfter", "SetRefreshableAfter"}, k \in K, d \in Durs}
-    \cup {[A0 EXCEPT !.op = o, !.k = k, !.v = 1, !.ld = l] : o \in {"Get", "Refresh"}, k \in K, l \in Lds}
-    \cup {[A0 EXCEPT !.op = o, !.ks = q, !.supply = u, !.shape = h, !.v = 1] :
-             o \in {"BulkGet", "BulkRefresh"}, q \in KeySeqs, u \in Supplies, h \in Shapes}
+    \* (adv: units by which the loader itself moves the clock - time passes inside user code)
+    \cup {[A0 EXCEPT !.op = o, !.k = k, !.v = 1, !.ld = l, !.adv = x] : o \in {"Get", "Refresh"}, k \in K, l \in Lds, x \in {0, 1}}
+    \cup {[A0 EXCEPT !.op = o, !.ks = q, !.supply = u, !.shape = h, !.v = 1, !.adv = x] :
+             o \in {"BulkGet", "BulkRefresh"}, q \in KeySeqs, u \in Supplies, h \in Shapes, x \in {0, 1}}
     \cup {[A0 EXCEPT !.op = o] : o \in {"InvalidateAll", "All", "Keys", "Values", "Hottest", "CleanUp",
                                         "GetMaximum", "WeightedSize", "EstimatedSize"}}
     \cup {[A0 EXCEPT !.op = "SetMaximum", !.m = m] : m \in 0 .. 2}
@@ -70,6 +71,7 @@ Init == s = InitState(Cfg, 0) /\ last = [a |-> A0, o |-> O0, ev |-> <<>>, s1 |->
 DoOp(a) ==
     /\ BoundOK(s)                                     \* maintenance restores the bound before the next call
     /\ a.op = "Advance" => s.now < MaxNow
+    /\ a.adv > 0 => s.now < MaxNow
     /\ LET r == Step(s, a)
            f == RunAll(r.s, r.o.mw, <<>>)
        IN /\ s' = Z(f.s)
@@ -183,10 +185,11 @@ C11_RefreshChannel ==
 \* C12: deadlines per calculator kind
 C12_Creating ==
     [][(Cfg.expiry = "creating" /\ IsOp /\ a.op # "SetExpiresAfter") =>
-          \A k \in K : (Live(s, k) /\ s'.ent[k].p) => s'.ent[k].exp = s.ent[k].exp]_vars
+          \* (an entry that is still alive when the operation ends - a loader may take time - keeps its deadline)
+          \A k \in K : (Live([s EXCEPT !.now = s'.now], k) /\ s'.ent[k].p) => s'.ent[k].exp = s.ent[k].exp]_vars
 C12_Writing ==
     [][(Cfg.expiry = "writing" /\ IsOp) =>
-          \A k \in K : (k \in PutKeys /\ s'.ent[k].p /\ s'.ent[k].v # s.ent[k].v) => s'.ent[k].exp = Plus(s.now, Cfg.e)]_vars
+          \A k \in K : (k \in PutKeys /\ s'.ent[k].p /\ s'.ent[k].v # s.ent[k].v) => s'.ent[k].exp = Plus(s'.now, Cfg.e)]_vars
 C12_Accessing ==
     [][(Cfg.expiry = "accessing" /\ a.op \in {"GetIfPresent", "GetEntry"} /\ Live(s, a.k)) =>
           s'.ent[a.k].exp = Plus(s.now, Cfg.e)]_vars
